@@ -99,6 +99,29 @@ class C06(C02mod.C02):
                     if m in seen:
                         return ("duplicate-delivery", f"message {m[:2]} delivered twice")
                     seen.append(m)
+            # `messages sent afterwards are delivered again`: on a stream that carries unordered chunks only, a complete
+            # message (B .. E with consecutive TSNs) never stays behind in the reassembly queue - every arrival is
+            # followed by a scan of the queue, which must find it whatever fragments of other messages surround it
+            if case.get("honest"):
+                by_tsn = {e[1][0]: e[1] for e in case["events"] if e[0] == 0}
+                for k, o in enumerate(out):
+                    if o[0] == [-2] or len(o) < 2:
+                        continue
+                    for sid, tsns, _seq in o[1][3]:
+                        chunks = [by_tsn.get(t) for t in tsns]
+                        if any(c is None or not c[3] for c in chunks):
+                            continue
+                        for i, c in enumerate(chunks):
+                            if c[4]:
+                                t = c[0]
+                                for d in chunks[i:]:
+                                    if d[0] != t:
+                                        break
+                                    if d[5]:
+                                        return ("unordered-message-stuck-behind-fragments",
+                                                f"after event #{k} the complete unordered message starting at TSN {c[0]} on stream "
+                                                f"{sid} sits in the reassembly queue {tsns} and was not delivered")
+                                    t = (t + 1) & 0xFFFFFFFF
             return None
         if case["k"] == 0:
             return super().oracle(case, out)
